@@ -420,10 +420,16 @@ def r10(ctx, facts):
                 continue
             n += 1
             if body.path != b.path:
-                # a reply sent from a closure (for_each): the closure must be created after the publication
-                from ..util import creation_site
-                site = creation_site(facts, body)
-                ok = site is not None and site[0].path == b.path and must_pass(b, facts, pubs, site[1])
+                # a reply sent from a closure (for_each): the closure must be created after the publication. The aggregate that
+                # builds it is looked for in b's own blocks (which include the blocks of helpers split off b), outermost closure first
+                chain_ = [body.path]
+                cur = body
+                while cur.parent and facts.body(cur.parent) is not None and facts.body(cur.parent).kind == "Closure" and cur.parent != b.path:
+                    cur = facts.body(cur.parent)
+                    chain_.append(cur.path)
+                where = [bb2 for bb2 in sorted(b.live_blocks) for st2 in b.stmts(bb2)
+                         if st2[0] == "A" and st2[2][0] == "agg" and st2[2][1][0] in ("closure", "coroutine") and st2[2][1][1] in chain_]
+                ok = bool(where) and all(must_pass(b, facts, pubs, w) for w in where)
                 r.instance("reply-after-publication", ok, "a refresh reply is sent from a closure that is not known to run after the new state was stored", c.span)
                 continue
             ok = must_pass(b, facts, pubs, bb)
